@@ -23,7 +23,8 @@ RULE = (
 ASSUMPTIONS = [
     "wire(text) = XML escaping of & < > for strings (what the serializer applies), identity otherwise",
     "rejected = any Exception",
-    "not asserted: bool passed where int expected, floats, lenient literals (1e3, 1_0, surrounding blanks), negative n-digit integers",
+    "not asserted: floats, lenient literals (1e3, 1_0, surrounding blanks), negative n-digit integers",
+    "not asserted: fixed-scale decimals with more than 20 digits (the library quantizes under the default 28-digit context; no model uses a fixed scale)",
 ]
 
 PRINTABLE = st.characters(categories=("L", "M", "N", "P", "S", "Zs"))
@@ -71,6 +72,11 @@ def untag(v):
         return decimal.Decimal(v[1])
     if k == "bytes":
         return v[1].encode()
+    if k == "dtz":
+        from pbt.checks.c09 import _tz
+
+        y, mo, d, h, mi, s, us, std = v[1:]
+        return dt.datetime(y, mo, d, h, mi, s, us, tzinfo=_tz(0, None, False, std))
     if k == "dt":
         y, mo, d, h, mi, s, us, off, name = v[1:]
         tz = dt.timezone(dt.timedelta(minutes=off)) if name is None else dt.timezone(dt.timedelta(minutes=off), name)
@@ -250,13 +256,19 @@ def check_case(case):
 
 # ---- strategies -------------------------------------------------------------------------
 def dec_text(max_int=12, max_frac=8):
-    return st.builds(
-        lambda sign, ip, sep, fp: sign + ip + (sep + fp if fp else ""),
-        st.sampled_from(["", "-", "+"]),
-        st.text("0123456789", min_size=1, max_size=max_int),
-        st.sampled_from([".", ","]),
-        st.text("0123456789", min_size=0, max_size=max_frac),
-    )
+    def one(mi, mf):
+        return st.builds(
+            lambda sign, ip, sep, fp: sign + ip + (sep + fp if fp else ""),
+            st.sampled_from(["", "-", "+"]),
+            st.text("0123456789", min_size=1, max_size=mi),
+            st.sampled_from([".", ","]),
+            st.text("0123456789", min_size=0, max_size=mf),
+        )
+
+    if max_int < 12:
+        return one(max_int, max_frac)
+    # one in ten: more significant digits than any fixed working precision (28, 34, ...) - amounts are exact
+    return st.integers(0, 9).flatmap(lambda i: one(40, 25) if i == 0 else one(max_int, max_frac))
 
 
 def aware_dt():
@@ -434,7 +446,8 @@ def cases(draw):
         elif op == "text":
             r = draw(st.integers(0, 3))
             if r <= 1:
-                t = draw(dec_text())
+                # with a fixed scale the library quantizes under the default 28-digit context: longer numbers are not asserted
+                t = draw(dec_text() if k is None else dec_text(max_int=11, max_frac=8))
                 ref = R.decimal_from_text(t)
                 c.update(text=t, expect="accept", ref=["dec", format(ref, "f")])
             elif r == 2:
@@ -455,6 +468,10 @@ def cases(draw):
         is_time = name == "Time"
         if op == "value":
             c["value"] = draw(aware_time() if is_time else aware_dt())
+            if not is_time and draw(st.integers(0, 3)) == 0:
+                # aware through a zone object whose offset depends on the date (zoneinfo-like): utcoffset(None) is None
+                v = c["value"]
+                c["value"] = ["dtz"] + v[1:8] + [draw(st.sampled_from([-300, -480, 60, 570, 0]))]
         elif op == "text":
             from pbt.checks.c09 import read_case
 
